@@ -15,7 +15,7 @@ a = ap.parse_args()
 seed = os.path.abspath(a.seed)
 meta = json.load(open(os.path.join(seed, "meta.json")))
 pid = meta.get("property", "C00")
-name = "harmless-%s-%s" % (pid, os.path.basename(seed.rstrip("/")))
+name = os.path.basename(seed.rstrip("/")) if os.path.basename(seed.rstrip("/")).startswith("harmless-") else "harmless-%s-%s" % (pid, os.path.basename(seed.rstrip("/")))
 checks = [c for c in a.checks.split(",") if c] or [pid]
 wt = "/tmp/hw-%s-%d" % (name, os.getpid())
 rep = {"ran": [], "silent": [], "alarm_by": []}
@@ -42,7 +42,7 @@ finally:
     subprocess.run(["python3", os.path.join(ROOT, "tools", "cleanwork.py")], stdout=subprocess.DEVNULL)
 dst = os.path.join(ROOT, "seeded", name); os.makedirs(dst, exist_ok=True)
 for f in os.listdir(seed):
-    if os.path.isfile(os.path.join(seed, f)):
+    if os.path.isfile(os.path.join(seed, f)) and os.path.abspath(seed) != os.path.abspath(dst):
         shutil.copyfile(os.path.join(seed, f), os.path.join(dst, f))
 meta["verification"] = rep
 json.dump(meta, open(os.path.join(dst, "meta.json"), "w"), indent=1)
